@@ -1,7 +1,10 @@
 //! Conformance harness binding the TLA+ specifications under /verif/spec to the
 //! real `assets_manager` crate (path dependency on /repo).
 pub mod assets;
+pub mod front;
 pub mod mem;
+pub mod nodes;
+pub mod replay;
 pub mod trace;
 
 pub mod c18;
